@@ -1,5 +1,14 @@
-"""Per-property configuration of ./check (which Lean modules hold the property theorems,
-what is assumed).  The manifest's level texts repeat the essentials."""
+"""Per-property configuration of ./check, one JSON file per claimed property in lib/props/Cxx.json:
+  modules      : Lean modules holding ONLY the property theorems (audited, counted as obligations)
+  gen_modules  : Lean modules with per-run obligations over regenerated facts (may break when /repo changes)
+  streams      : false when the property has no correspondence stream (default true)
+  assumptions  : list of strings, copied into the evidence
+  trusted_base : extra trusted-base items for this property
+  explanation  : what is proved / partial, copied into the evidence
+  timeout      : {"quick": seconds, "thorough": seconds} for the correspondence run
+  manifest     : {"text", "design_ref", "note", "technique"} for MANIFEST.json
+"""
+import glob, json, os
 
 TRUSTED_BASE = [
     "Lean 4.33.0 kernel (thorough tier: leanchecker re-check of the compiled .olean files)",
@@ -8,15 +17,6 @@ TRUSTED_BASE = [
     "modelled rather than verified: all of comet's Go code (the theorems are about the Lean model; the correspondence run ties it to /repo's working tree on every run)",
 ]
 
-F32 = "IEEE-754 binary32: Lean's Float32 primitives equal Go's float32 operations on this platform (validated by every bit-exact comparison in every run, not proved); <= on non-NaN floats is a total preorder (hypothesis `Scalar.Ordered` of the theorems)"
-SORT = "Go's sort.Slice returns a sorted permutation (any tie order); implementation answers are judged by the verified checker checkTopK (checkTopK_iff), never by equality with the model's order"
-ROARING = "roaring bitmaps implement finite sets of uint32"
-
-PROPS = {
-    "C01": {
-        "modules": ["CometProofs.Properties.C01"],
-        "assumptions": [F32, SORT, ROARING,
-                        "quantifier as in the property: distinct add ids (FreshAdds), finite non-NaN vectors"],
-        "explanation": "full-strength theorems about the model of flat_index.go/flat_index_search.go (flat_search_exact and corollaries) + per-run correspondence of the real FlatIndex against model and specification, scores compared bit for bit",
-    },
-}
+PROPS = {}
+for _f in sorted(glob.glob(os.path.join(os.path.dirname(os.path.abspath(__file__)), "props", "C*.json"))):
+    PROPS[os.path.basename(_f)[:-5]] = json.load(open(_f))
